@@ -100,10 +100,12 @@ def lex(src, keep_comments=True):
             continue
         if c == "`":
             raise TsSyntaxError("template literal at %d" % i)
-        if c.isdigit():
-            m = re.match(r"\d+(\.\d+)?", src[i:])
+        if c in "0123456789":
+            m = re.match(r"[0-9]+(\.[0-9]+)?", src[i:])
             toks.append(Tok("num", m.group(0), m.group(0), i, nl))
             i += len(m.group(0))
+            if i < n and is_id_part(src[i]):
+                raise TsSyntaxError("identifier directly after a numeric literal at %d" % i)
             nl = False
             continue
         if is_id_start(c):
